@@ -1,7 +1,7 @@
 (* Property C08 - only statements, each closed by [exact]. *)
 From Coq Require Import NArith List Bool Sorting.Sorted Permutation.
 Import ListNotations.
-Require Import UV.C08.Model UV.C08.Proofs UV.C08.Figures UV.C08.Open UV.C08.Order UV.C08.Checker UV.C08.OpenSpec UV.C08.SortChecker UV.C08.Merge.
+Require Import UV.C08.Model UV.C08.Proofs UV.C08.Figures UV.C08.Open UV.C08.Order UV.C08.Checker UV.C08.OpenSpec UV.C08.SortChecker UV.C08.Merge UV.C08.Lost UV.C08.LostSpec UV.C08.Inherit UV.C08.SelfDiff.
 Local Open Scope N_scope.
 
 (* The accumulation automaton of fstack_account_time + report_update_node (uint64 arithmetic, clamp
@@ -133,6 +133,14 @@ Theorem C08_self_diff_zero : forall c,
 Proof. exact (fun c => diff_self_zero (report c) (report_names_sorted c)). Qed.
 Print Assumptions C08_self_diff_zero.
 
+(* ... as printed: `uftrace report --diff DIR` with DIR the data set itself lists every function once and every
+   difference cell is the zero cell ("0 us", "+0"). *)
+Theorem C08_self_diff_stdout : forall c,
+  Permutation (map fst (diff_stdout (report c) (report c))) (map n_name (report c))
+  /\ Forall (fun l => snd l = [None; None; None]) (diff_stdout (report c) (report c)).
+Proof. exact (fun c => diff_stdout_self (report c) (report_names_sorted c)). Qed.
+Print Assumptions C08_self_diff_stdout.
+
 (* The printed time is the value truncated to its unit (us, ms, s, m = 60 s, h = 60 m) for every value below
    1000 hours (exact below 1 ms). *)
 Theorem C08_printed_time : forall ns, ns < 3600000000000000 -> ok_cell ns (fmt_time ns) = true.
@@ -148,8 +156,62 @@ Theorem C08_stdout_checker_accepts_model : forall m s f c, small_figures (report
 Proof. exact (fun m s f c H => stdout_checker_accepts_model _ _ (report c) (report_names_sorted c) H). Qed.
 Print Assumptions C08_stdout_checker_accepts_model.
 
+(* LOST markers.  Any record list whose depth fields agree with the nesting (walk: ENTRY at depth n, EXIT at
+   n-1, nesting below max_stack; markers anywhere, any number in a row, also first - i.e. the dropped records
+   were complete calls), first record with depth field 0, last record not a marker: the counted rows are exactly
+   those of the list without the markers. *)
+Theorem C08_lost_markers_transparent : forall max_stack rs m,
+  walk (N.to_nat max_stack) 0 rs = Some m -> head_ok rs -> final_pend false rs = false ->
+  task_rows max_stack rs = task_rows max_stack (erase rs).
+Proof. exact lost_markers_transparent. Qed.
+Print Assumptions C08_lost_markers_transparent.
+
+(* ... hence for the data of a good task (completed calls, then calls open at the end) with markers inserted,
+   the rows are the specification's rows of that task, *)
+Theorem C08_lost_markers_task : forall max_stack tt rs, good_task max_stack tt -> marked tt rs ->
+  task_rows max_stack rs = task_rows max_stack (trace_recs tt)
+  /\ Permutation (task_rows max_stack rs) (spec_task tt).
+Proof. exact marked_task_rows. Qed.
+Print Assumptions C08_lost_markers_task.
+
+(* ... and the run-time checker accepts the model's report of any set of such tasks. *)
+Theorem C08_checker_accepts_model_lost : forall max_stack nms tts rss,
+  Forall (good_task max_stack) tts -> Forall2 marked tts rss ->
+  sumN (map w_total (concat (map spec_task tts))) < M64 ->
+  report (mkcase max_stack nms rss) = report (mkcase max_stack nms (map trace_recs tts))
+  /\ ok_table nms tts (report (mkcase max_stack nms rss)) = true.
+Proof. exact checker_accepts_model_lost. Qed.
+Print Assumptions C08_checker_accepts_model_lost.
+
+(* Data that starts at depth k > 0 (a forked child; a thread whose first buffers were not recorded), no LOST
+   markers: the counted rows are exactly those of the same data preceded by k ENTRY records of unknown address
+   (0) at the time of the first record - the frames open when recording began are calls entered then. *)
+Theorem C08_inherited_start : forall max_stack r0 rest k,
+  Forall (fun r => is_lost r = false) (r0 :: rest) ->
+  N.of_nat k = r_depth r0 + (if is_exit r0 then 1 else 0) -> (k <= N.to_nat max_stack)%nat ->
+  task_rows max_stack (r0 :: rest) = task_rows max_stack (zeros k (r_time r0) ++ r0 :: rest).
+Proof. exact inherited_start. Qed.
+Print Assumptions C08_inherited_start.
+
+(* ... hence the rows are the specification's rows of the task in which those frames are calls with entry
+   address 0 (never recursive, named by their EXIT record, <0> when they never exit), *)
+Theorem C08_inherited_task : forall max_stack tt rs, good_task max_stack tt -> inherits max_stack tt rs ->
+  task_rows max_stack rs = task_rows max_stack (trace_recs tt)
+  /\ Permutation (task_rows max_stack rs) (spec_task tt).
+Proof. exact inherited_task_rows. Qed.
+Print Assumptions C08_inherited_task.
+
+(* ... and the run-time checker accepts the model's report of any set of such tasks (parent and children). *)
+Theorem C08_checker_accepts_model_inherited : forall max_stack nms tts rss,
+  Forall (good_task max_stack) tts -> Forall2 (inherits max_stack) tts rss ->
+  sumN (map w_total (concat (map spec_task tts))) < M64 ->
+  report (mkcase max_stack nms rss) = report (mkcase max_stack nms (map trace_recs tts))
+  /\ ok_table nms tts (report (mkcase max_stack nms rss)) = true.
+Proof. exact checker_accepts_model_inherited. Qed.
+Print Assumptions C08_checker_accepts_model_inherited.
+
 (* ------------------------------------------------------------------------------------------------
-   The code before the four fixes (legacy variants of the model), each next to the behaviour now.  *)
+   The code before the five fixes (legacy variants of the model), each next to the behaviour now.  *)
 
 (* hours were minutes / 24: 35 min was printed "1.011 h"; now "35.000 m" *)
 Theorem C08_printed_time_hours_legacy_refuted :
@@ -188,10 +250,17 @@ Theorem C08_diff_sign_legacy_refuted :
 Proof. exact diff_sign_legacy_refuted. Qed.
 Print Assumptions C08_diff_sign_legacy_refuted.
 
-(* ------------------------------------------------------------------------------------------------
-   Still present in the code (known finding lost-after-inherited-wrap): outside the guard "no LOST after
-   data that starts at depth > 0" a duration wraps: 2^64 - 1499 ns *)
-Theorem C08_lost_after_inherited_refuted :
-  exists n, find_node (report lost_case) 2 = Some n /\ smax (n_total n) = M64 - 1499.
-Proof. exact lost_after_inherited_refuted. Qed.
-Print Assumptions C08_lost_after_inherited_refuted.
+(* LOST markers (fix c76be09): before, every marker took 1 ns from the Self time of the innermost open call
+   (Self 799 of a call of 800 ns without callees); now the figures are exact *)
+Theorem C08_lost_marker_legacy_refuted :
+  map (fun n => (n_name n, sum (n_total n), sum (n_self n))) (report_gen true lost_1ns_case) = [(1, 1000, 200); (2, 800, 799)]
+  /\ map (fun n => (n_name n, sum (n_total n), sum (n_self n))) (report lost_1ns_case) = [(1, 1000, 200); (2, 800, 800)].
+Proof. exact lost_marker_legacy_refuted. Qed.
+Print Assumptions C08_lost_marker_legacy_refuted.
+
+(* ... and after data starting at depth > 0 a marker wrapped a duration (2^64 - 1499 ns); now 1 ns *)
+Theorem C08_lost_after_inherited_legacy_refuted :
+  (exists n, find_node (report_gen true lost_case) 2 = Some n /\ smax (n_total n) = M64 - 1499)
+  /\ (exists n, find_node (report lost_case) 2 = Some n /\ smax (n_total n) = 1).
+Proof. exact lost_after_inherited_legacy_refuted. Qed.
+Print Assumptions C08_lost_after_inherited_legacy_refuted.
